@@ -199,11 +199,9 @@ struct C16Model : mcx::Model {
         for(size_t b = 0; b < OPN2::BankMap::hash_buckets; b++) {
             for(auto *sl = map.m_buckets[b]; sl; sl = sl->next) { s.u16((uint16_t)b); s.u64(sl->value.first); vu::H128 h = vu::hash128(&sl->value.second, sizeof sl->value.second); s.raw(&h, sizeof h); }
         }
-        // free list length and slab sizes
-        uint32_t nfree = 0; for(auto *sl = map.m_freeslots; sl && nfree < 100000; sl = sl->next) nfree++;
-        s.u32(nfree);
+        // linked structure (prev pointers, free-list order) up to slot renaming; slab count
+        pl::ser_bankmap_links(map, s);
         s.u32((uint32_t)map.m_allocations.size());
-        // (free slots are interchangeable: free_slot() resets their payload, the stale key is never read)
         // reference model state
         s.u32((uint32_t)I.ref.size());
         for(auto &kv : I.ref) { s.u32((uint32_t)kv.first); vu::H128 h = vu::hash128(kv.second.ins, sizeof kv.second.ins); s.raw(&h, sizeof h); }
